@@ -1024,10 +1024,25 @@ func runC08(t *Trace, r *Rng, tier string, _ []string) {
 			q, ftok := genQuery(r, 3, ci.ids, kinds)
 			hotRoot := r.Chance(35)
 			if hotRoot {
-				if r.Chance(70) {
+				switch x := r.Intn(100); {
+				case x < 50:
 					q, ftok = genBoolTermsMinShould(r, kinds)
-				} else {
+				case x < 75:
 					q, ftok = genDocIDs(r, ci.ids, kinds)
+				case x < 88:
+					// match-all: on scorch the doc-id reader walks the segments by their doc-number ranges
+					kinds["match_all-root"]++
+					q, ftok = bleve.NewMatchAllQuery(), "A"
+				default:
+					// only must-not clauses: match-all is the implicit must
+					kinds["boolean-only-mustnot-root"]++
+					f := []string{"t0", "t1"}[r.Intn(2)]
+					w := c02Vocab[r.Intn(5)]
+					tq := bleve.NewTermQuery(w)
+					tq.SetField(f)
+					bq := bleve.NewBooleanQuery()
+					bq.AddMustNot(tq)
+					q, ftok = bq, fmt.Sprintf("O 0 0 1 D 0 1 T %s %s 0", hs(f), hs(w))
 				}
 			}
 			tok, _ := resolveFuzzy(ftok, engine == "scorch")
